@@ -10,6 +10,8 @@ open GoInt
 namespace Proofs.Mvp61Witness
 open Model.Mvp61
 
+set_option synthInstance.maxSize 512
+
 /-! ### MVP-6.0's lost load: not here
 
 `lb a1, 0(zero); bnez s0, l3; addi a3, zero, 5; l3:` with `s0 = 1` (and `lb a2, 1(zero)` behind `l3`): MVP-6.0 with two
